@@ -1017,4 +1017,365 @@ theorem heap_max_align_witness :
     (malloc ⟨64, 0⟩ Heap.init 1).ret = some 8 ∧ 8 % 16 ≠ 0 ∧ 8 % 8 = 0 ∧
     (malloc ⟨64, 0⟩ (malloc ⟨64, 0⟩ Heap.init 1).h 1).ret = some 80 ∧ 80 % 16 = 0 := by decide
 
+
+/-! ### Pools: element size (iff), zones outside `pool_engage`'s precondition -/
+
+/-- EXACT characterisation of the admissible element sizes: the link stores of `pool_engage`
+into a zone of `n ≥ 1` cells of `e` bytes all stay inside the zone IF AND ONLY IF `e ≥ 8`
+(= `sizeof(struct slist_head)`).  For every element size 1..7 — "smaller than a pointer" — the
+link of the last cell leaves the zone (`pool_elemsz_below_link_witness` is the instance `e = 4`). -/
+theorem pool_links_inside_zone_iff (e b n : Nat) (he : 0 < e) (hn : 0 < n) :
+    (∀ ev ∈ engageEvs e (b + n * e) (n * e + 1) b, ev.Inside b (b + n * e)) ↔ 8 ≤ e := by
+  constructor
+  · intro hall
+    have hle : n ≤ n * e := Nat.le_mul_of_pos_right n he
+    have hmem := engageEvs_mem e b n he (n * e + 1) 0 (n - 1) (by omega) (by omega) (by omega)
+    rw [Nat.zero_mul, Nat.add_zero] at hmem
+    have := hall _ hmem
+    simp only [Ev.Inside, Ev.lo, Ev.hi] at this
+    have h1 : (n - 1 + 1) * e = (n - 1) * e + e := by rw [Nat.add_mul, Nat.one_mul]
+    have h2 : n - 1 + 1 = n := by omega
+    rw [h2] at h1
+    omega
+  · intro h8 ev hev
+    have := engageEvs_inside e b n h8 (n * e + 1) 0 (Nat.zero_le _)
+    simp only [Nat.zero_mul, Nat.add_zero] at this
+    exact this ev hev
+
+/-- FULL STATEMENT ("inside the arena") fails for a zone that is not whole cells when the
+`assert(size % elemsz == 0)` of `pool_engage` is compiled out (`NDEBUG`): the loop
+`while (it < stop)` carves `size / elemsz + 1` cells, and the one handed out first starts
+inside the zone and ends behind it.  (With assertions the request aborts: `engageRefused`.) -/
+theorem pool_ragged_zone_last_cell_outside (size e : Nat) (he : 0 < e) (hr : size % e ≠ 0) :
+    (Pool.init.engage size e).free = (cells e (size / e + 1)).reverse ∧
+    (Pool.init.engage size e).alloc.1 = some (size / e * e) ∧
+    size / e * e < size ∧ size < size / e * e + e := by
+  have hdm := Nat.div_add_mod size e
+  have hlt := Nat.mod_lt size he
+  have hsz : size / e * e + size % e = size := by rw [Nat.mul_comm]; exact hdm
+  have hq : size / e ≤ size / e * e := Nat.le_mul_of_pos_right _ he
+  have he2 : 2 ≤ e := by
+    rcases (by omega : e = 1 ∨ 2 ≤ e) with h | h
+    · subst h; simp [Nat.mod_one] at hr
+    · exact h
+  have hq2 : size / e * 2 ≤ size / e * e := Nat.mul_le_mul_left _ he2
+  have hfree : (Pool.init.engage size e).free = (cells e (size / e + 1)).reverse := by
+    have h := engageLoop_ragged e (size / e) (size % e) (by omega) hlt (size + 1) 0 []
+    rw [Nat.zero_mul, hsz] at h
+    have h2 := engageLoop_eq e (size / e + 1) he (size + 1) 0 [] (by omega) (by omega)
+    simp only [Nat.zero_mul, Nat.sub_zero, List.append_nil] at h2
+    simp only [Pool.engage, Pool.init, h, h2, cells, List.range_eq_range']
+  refine ⟨hfree, ?_, by omega, by omega⟩
+  simp only [Pool.alloc, hfree, cells, List.range_succ, List.map_append, List.map_cons, List.map_nil,
+    List.reverse_append, List.reverse_cons, List.reverse_nil, List.nil_append, List.cons_append]
+
+/-- the same on numbers: a 20-byte zone with 8-byte cells -/
+theorem pool_ragged_zone_witness :
+    (Pool.init.engage 20 8).free = [16, 8, 0] ∧ ¬ (16 + 8 ≤ 20) ∧ engageRefused 20 8 = true := by decide
+
+/-- INADMISSIBLE: `pool_engage` of a zone that overlaps cells the pool already owns (here: the
+same 16-byte zone twice).  Nothing in the code notices.  List level: every cell is on the
+free list twice — `avail` reports 4 for 2 cells and the 3rd `pool_alloc` hands out the cell of
+the 1st again.  Pointer level (what the code really does): the second `slist_add` of a node
+that is already linked closes a cycle `8 → 0 → 8 → …` that no longer contains the head:
+`pool_avail` never terminates (it runs out of any fuel).  The histories reject the request. -/
+theorem pool_overlapping_zone_witness :
+    (engageTwice 16 8).free = [8, 0, 8, 0] ∧ (engageTwice 16 8).avail = 4 ∧
+    (engageTwice 16 8).alloc.2.alloc.2.alloc.1 = (engageTwice 16 8).alloc.1 ∧
+    mstep ⟨Pool.init.engage 16 8, [], [⟨0, 16, 8⟩]⟩ (.engage 0 16 8) = none ∧
+    (let m := engageAtP (engageAtP (slistInit (fun _ => 0) 100) 100 0 16 8) 100 0 16 8
+     m 8 = 0 ∧ m 0 = 8 ∧ slistSize m 100 50 = 50) := by decide
+
+/-! ### The twins on the same clauses: igris::pool and static_object_pool hand out exactly
+their capacity before null (so far stated for `pool_head` only) -/
+
+/-- igris::pool: `get()` answers null exactly when all `n` cells are handed out -/
+theorem ipool_null_iff_exhausted (e n : Nat) (he : 0 < e) (ops : List IOp) (s : IState)
+    (hr : irun ⟨IPool.init (n * e) e, []⟩ ops = some s) : s.pool.get.1 = none ↔ s.live.length = n := by
+  obtain ⟨hp, _, _, _⟩ := irun_inv he (IInv.init e n he) hr
+  have hf := (PInv.facts he hp).2.2.2.2
+  simp only at hf
+  simp only [IPool.get, Pool.alloc]
+  cases hfr : s.pool.head.free with
+  | nil => simp [hfr] at hf ⊢; exact hf
+  | cons c rest => simp [hfr] at hf ⊢; omega
+
+/-- igris::pool: `k` calls of `get()` on a fresh pool give `min k n` cells -/
+theorem ipool_exactly_capacity (e n k : Nat) (he : 0 < e) (s : IState)
+    (hr : irun ⟨IPool.init (n * e) e, []⟩ (List.replicate k .get) = some s) : s.live.length = min k n := by
+  have h1 := irun_gets k _ s hr
+  have := prun_allocs he k _ _ (IInv.init e n he).1 h1
+  simpa using this
+
+/-- static_object_pool: `create()` answers null exactly when `Capacity` objects are alive -/
+theorem sop_null_iff_exhausted (szT alT cap : Nat) (ops : List SOp) (s : SOP)
+    (hr : srun (SOP.init szT alT cap) ops = some s) : s.create.1 = none ↔ s.objs.length = cap := by
+  have he : 0 < storageSize szT alT := by have := storageSize_pos szT alT; omega
+  have hi0 : SInv (storageSize szT alT) cap (SOP.init szT alT cap) := ⟨PInv.init _ cap he, rfl⟩
+  obtain ⟨hp, _⟩ := srun_inv he hi0 hr
+  have hf := (PInv.facts he hp).2.2.2.2
+  simp only at hf
+  simp only [SOP.create, Pool.alloc]
+  cases hfr : s.head.free with
+  | nil => simp [hfr] at hf ⊢; exact hf
+  | cons c rest => simp [hfr] at hf ⊢; omega
+
+/-- static_object_pool: `k` calls of `create()` on a fresh pool construct `min k Capacity` objects -/
+theorem sop_exactly_capacity (szT alT cap k : Nat) (s : SOP)
+    (hr : srun (SOP.init szT alT cap) (List.replicate k .create) = some s) : s.objs.length = min k cap := by
+  have he : 0 < storageSize szT alT := by have := storageSize_pos szT alT; omega
+  have h1 := srun_creates k _ s hr
+  have := prun_allocs he k _ _ (PInv.init _ cap he) h1
+  simpa [SOP.init] using this
+
+/-! ### Refinement to a SET-OF-BLOCKS specification
+
+The specification knows nothing about lists, links or LIFO order: there is a fixed set of
+blocks; `alloc` may hand out ANY block that is not handed out and answers null only when all
+are; `free c` of a handed-out block makes exactly that block available again. -/
+
+/-- one `alloc` of the specification: result `r`, live set `live → live'` -/
+def SpecAlloc (blocks live : List Nat) (r : Option Nat) (live' : List Nat) : Prop :=
+  match r with
+  | none => (∀ c ∈ blocks, c ∈ live) ∧ live' = live
+  | some c => c ∈ blocks ∧ c ∉ live ∧ live' = c :: live
+
+/-- one `free c` of the specification -/
+def SpecFree (live : List Nat) (c : Nat) (live' : List Nat) : Prop := c ∈ live ∧ live' = live.erase c
+
+/-- `pool_head` refines the set-of-blocks specification (blocks = the cells `0, e, …, (n−1)e`) -/
+theorem pool_refines_block_set (e n : Nat) (he : 0 < e) (ops : List POp) (s : PState)
+    (hr : prun (freshPool e n) ops = some s) :
+    (∀ s' r, pstep s .alloc = some (s', r) → SpecAlloc (cells e n) s.live r s'.live) ∧
+    (∀ s' r c, pstep s (.free c) = some (s', r) → SpecFree s.live c s'.live) := by
+  have hi := prun_inv (PInv.init e n he) hr
+  have hsp := perm_alloc_spec (show (s.pool.free ++ s.live).Perm (cells e n) from hi) (cells_nodup e n he)
+  constructor
+  · intro s' r ha
+    simp only [pstep, Pool.alloc] at ha
+    cases hfr : s.pool.free with
+    | nil =>
+      rw [hfr] at ha; simp only [Option.some.injEq, Prod.mk.injEq] at ha
+      obtain ⟨rfl, rfl⟩ := ha
+      exact ⟨hsp.1 hfr, rfl⟩
+    | cons c rest =>
+      rw [hfr] at ha; simp only [Option.some.injEq, Prod.mk.injEq] at ha
+      obtain ⟨rfl, rfl⟩ := ha
+      have := hsp.2 c rest hfr
+      exact ⟨this.1, this.2, rfl⟩
+  · intro s' r c hf
+    simp only [pstep] at hf
+    split at hf
+    · rename_i hc
+      simp only [Option.some.injEq, Prod.mk.injEq] at hf
+      obtain ⟨rfl, _⟩ := hf
+      exact ⟨by simpa using hc, rfl⟩
+    · cases hf
+
+/-- igris::pool refines the same specification (`get` = alloc, `put` = free) -/
+theorem ipool_refines_block_set (e n : Nat) (he : 0 < e) (ops : List IOp) (s : IState)
+    (hr : irun ⟨IPool.init (n * e) e, []⟩ ops = some s) :
+    (∀ s' r, istep s .get = some (s', r) → SpecAlloc (cells e n) s.live r s'.live) ∧
+    (∀ s' r c, istep s (.put (some c)) = some (s', r) → SpecFree s.live c s'.live) := by
+  obtain ⟨hp, _, _, _⟩ := irun_inv he (IInv.init e n he) hr
+  have hsp := perm_alloc_spec (show (s.pool.head.free ++ s.live).Perm (cells e n) from hp) (cells_nodup e n he)
+  constructor
+  · intro s' r ha
+    simp only [istep, IPool.get, Pool.alloc] at ha
+    cases hfr : s.pool.head.free with
+    | nil =>
+      rw [hfr] at ha; simp only [Option.some.injEq, Prod.mk.injEq] at ha
+      obtain ⟨rfl, rfl⟩ := ha
+      exact ⟨hsp.1 hfr, rfl⟩
+    | cons c rest =>
+      rw [hfr] at ha; simp only [Option.some.injEq, Prod.mk.injEq] at ha
+      obtain ⟨rfl, rfl⟩ := ha
+      have := hsp.2 c rest hfr
+      exact ⟨this.1, this.2, rfl⟩
+  · intro s' r c hf
+    simp only [istep] at hf
+    split at hf
+    · rename_i hc
+      split at hf
+      · simp only [Option.some.injEq, Prod.mk.injEq] at hf
+        obtain ⟨rfl, _⟩ := hf
+        exact ⟨by simpa using hc, rfl⟩
+      · cases hf
+    · cases hf
+
+/-- static_object_pool refines the same specification (`create` = alloc, `destroy` = free;
+blocks = the `Capacity` cells of `sizeof(storage_type)` bytes) -/
+theorem sop_refines_block_set (szT alT cap : Nat) (ops : List SOp) (s : SOP)
+    (hr : srun (SOP.init szT alT cap) ops = some s) :
+    (∀ s' r, sstep s .create = some (s', r) → SpecAlloc (cells (storageSize szT alT) cap) s.objs r s'.objs) ∧
+    (∀ s' r c, sstep s (.destroy c) = some (s', r) → SpecFree s.objs c s'.objs) := by
+  have he : 0 < storageSize szT alT := by have := storageSize_pos szT alT; omega
+  have hi0 : SInv (storageSize szT alT) cap (SOP.init szT alT cap) := ⟨PInv.init _ cap he, rfl⟩
+  obtain ⟨hp, _⟩ := srun_inv he hi0 hr
+  have hsp := perm_alloc_spec (show (s.head.free ++ s.objs).Perm (cells (storageSize szT alT) cap) from hp)
+    (cells_nodup _ cap he)
+  constructor
+  · intro s' r ha
+    simp only [sstep, SOP.create, Pool.alloc, Option.some.injEq, Prod.mk.injEq] at ha
+    cases hfr : s.head.free with
+    | nil =>
+      rw [hfr] at ha
+      obtain ⟨rfl, rfl⟩ := ha
+      exact ⟨hsp.1 hfr, rfl⟩
+    | cons c rest =>
+      rw [hfr] at ha
+      obtain ⟨rfl, rfl⟩ := ha
+      have := hsp.2 c rest hfr
+      exact ⟨this.1, this.2, rfl⟩
+  · intro s' r c hf
+    simp only [sstep] at hf
+    split at hf
+    · rename_i hc
+      simp only [Option.some.injEq, Prod.mk.injEq] at hf
+      obtain ⟨rfl, _⟩ := hf
+      exact ⟨by simpa using hc, rfl⟩
+    · cases hf
+
+/-- one pool fed from several zones refines it too (blocks = all cells of all zones engaged so
+far; `pool_engage` of a further zone only ADDS blocks, the live set is untouched) -/
+theorem mpool_refines_block_set (ops : List MOp) (s : MState) (hr : mrun MState.init ops = some s) :
+    (∀ s' r, mstep s .alloc = some (s', r) → SpecAlloc (allCells s.zones) s.live r s'.live) ∧
+    (∀ s' r c, mstep s (.free c) = some (s', r) → SpecFree s.live c s'.live) ∧
+    (∀ s' r b sz e, mstep s (.engage b sz e) = some (s', r) →
+      s'.live = s.live ∧ ∀ c, c ∈ allCells s'.zones ↔ (c ∈ zcells ⟨b, sz, e⟩ ∨ c ∈ allCells s.zones)) := by
+  have hi := mrun_inv MInv.init hr
+  have hsp := perm_alloc_spec hi.perm (allCells_nodup hi.disj hi.wf)
+  refine ⟨?_, ?_, ?_⟩
+  · intro s' r ha
+    simp only [mstep, Pool.alloc] at ha
+    cases hfr : s.pool.free with
+    | nil =>
+      rw [hfr] at ha; simp only [Option.some.injEq, Prod.mk.injEq] at ha
+      obtain ⟨rfl, rfl⟩ := ha
+      exact ⟨hsp.1 hfr, rfl⟩
+    | cons c rest =>
+      rw [hfr] at ha; simp only [Option.some.injEq, Prod.mk.injEq] at ha
+      obtain ⟨rfl, rfl⟩ := ha
+      have := hsp.2 c rest hfr
+      exact ⟨this.1, this.2, rfl⟩
+  · intro s' r c hf
+    simp only [mstep] at hf
+    split at hf
+    · rename_i hc
+      simp only [Option.some.injEq, Prod.mk.injEq] at hf
+      obtain ⟨rfl, _⟩ := hf
+      exact ⟨by simpa using hc, rfl⟩
+    · cases hf
+  · intro s' r b sz e hf
+    simp only [mstep] at hf
+    split at hf
+    · cases hf
+    · split at hf
+      · simp only [Option.some.injEq, Prod.mk.injEq] at hf
+        obtain ⟨rfl, _⟩ := hf
+        exact ⟨rfl, fun c => by simp [allCells]⟩
+      · cases hf
+
+example : ∃ s, irun ⟨IPool.init 48 16, []⟩ (List.replicate 5 .get) = some s ∧ s.live.length = 3 := ⟨_, rfl, by decide⟩
+example : ∃ s, srun (SOP.init 12 4 3) (List.replicate 5 .create) = some s ∧ s.objs.length = 3 := ⟨_, rfl, by decide⟩
+example : SpecAlloc [0, 8, 16] [8] (some 0) [0, 8] := ⟨by decide, by decide, rfl⟩
+example : SpecAlloc [0, 8] [8, 0] none [8, 0] := ⟨by decide, rfl⟩
+
+
+/-! ### Heap: back to the initial state, maximal allocation, corner requests, bytes -/
+
+/-- "memory is not lost", as a statement about the whole state: after ANY history (any
+sizes, any interleaving, blocks freed in ANY order) that leaves no block live, the heap is
+literally the initial heap again … -/
+theorem heap_back_to_initial_state (cfg : Cfg) (ok : CfgOK cfg) (ops : List Op) (h : Heap)
+    (hr : run cfg Heap.init ops = some h) (hl : h.live = []) : h = Heap.init := by
+  obtain ⟨hb, hf⟩ := heap_returns_to_start cfg ok ops h hr hl
+  cases h; simp only [Heap.init] at *; subst hb hf hl; rfl
+
+/-- … so a maximal allocation succeeds again: on such a heap `malloc(n)` succeeds (at the
+heap start) EXACTLY when the rounded request plus its header fits the configured arena
+(always, without a heap end): no fragmentation survives the release of all blocks -/
+theorem heap_max_alloc_after_release (cfg : Cfg) (ok : CfgOK cfg) (ops : List Op) (h : Heap)
+    (hr : run cfg Heap.init ops = some h) (hl : h.live = []) (n : Nat) :
+    ((malloc cfg h n).ret = some 8 ↔ (cfg.lim = 0 ∨ minLen (roundLen cfg.W n) + 8 ≤ cfg.lim)) ∧
+    ((malloc cfg h n).ret = none ↔ ¬ (cfg.lim = 0 ∨ minLen (roundLen cfg.W n) + 8 ≤ cfg.lim)) := by
+  rw [heap_back_to_initial_state cfg ok ops h hr hl]
+  simp only [malloc, Heap.init, scan, availOf]
+  generalize minLen (roundLen cfg.W n) = len
+  by_cases hl0 : cfg.lim = 0
+  · simp [hl0]
+  · by_cases hfit : len + 8 ≤ cfg.lim
+    · have h1 : ¬ cfg.lim ≤ 0 := by omega
+      simp only [h1, if_false, Nat.sub_zero, ne_eq, hl0, not_false_eq_true, true_and, ge_iff_le, hfit,
+        and_true, false_or]
+      have : len ≤ cfg.lim := by omega
+      simp [this]
+    · have h1 : ¬ cfg.lim ≤ 0 := by omega
+      simp only [h1, if_false, Nat.sub_zero, ne_eq, hl0, not_false_eq_true, true_and, ge_iff_le, hfit,
+        and_false, false_or]
+      simp
+
+/-- the corner requests of the C standard: `free(NULL)` does nothing; `realloc(NULL, n)` is
+`malloc` of the rounded size (a valid block of at least `n` bytes when it succeeds); a model
+history rejects a double free -/
+theorem heap_corner_requests (cfg : Cfg) (ok : CfgOK cfg) (h : Heap) (n : Nat) (hr : Reach cfg h) :
+    step cfg h (.free none) = some ⟨h, none, []⟩ ∧
+    realloc cfg h none n = some (malloc cfg h (minLen (roundLen cfg.W n))) ∧
+    (∀ r q, realloc cfg h none n = some r → r.ret = some q →
+      ∃ s, r.h.live = (q - 8, s) :: h.live ∧ n ≤ s ∧ q % 8 = 0 ∧ ∀ c ∈ h.live, Disj c (q - 8, s)) ∧
+    (∀ p r, free h p = some r → free r.h p = none) := by
+  refine ⟨rfl, rfl, fun r q hre hq => ?_, fun p r hf => ?_⟩
+  · simp only [realloc, reallocCore, Option.some.injEq] at hre
+    subst hre
+    obtain ⟨s, h1, _, h3, h4, _, _, h7⟩ := malloc_returns_valid_block cfg ok h _ q hr hq
+    exact ⟨s, h1, by have := le_reqLen cfg.W n; omega, h4, h7⟩
+  · have hlive := free_live_eq hf
+    have hi := hr.inv ok
+    -- the chunk is gone from `live`: addresses of live chunks are pairwise distinct
+    unfold free
+    split
+    · rfl
+    · simp only
+      have hnone : lookup (p - 8) r.h.live = none := by
+        rw [hlive]
+        unfold free at hf
+        split at hf
+        · cases hf
+        · simp only at hf
+          split at hf
+          · cases hf
+          · rename_i sz hl
+            exact lookup_remove_none hi hl
+      rw [hnone]
+
+/-- INADMISSIBLE: a double free.  At the pointer level (what the code does) `free(p)` of a
+chunk that already is the only free-list entry links it to itself (`fpnew->nx = fp1` with
+`fp1 == fpnew`): the free list becomes cyclic and the next walk (malloc step 1) never ends. -/
+theorem heap_double_free_witness :
+    let cfg : Cfg := ⟨64, 0⟩
+    let ph2 := (mallocP cfg (mallocP cfg PHeap.init 64 1).h 64 73).h
+    let ph3 := (freeP ph2 8 145).h
+    let ph4 := (freeP ph3 8 145).h
+    walkFl ph3 50 = [(0, 64)] ∧ ph4.nxf 0 = some 0 ∧ (walkFl ph4 50).length = 50 := by decide
+
+/-- realloc preserves the common prefix ON A CONCRETE BYTE MEMORY: run the stores of the
+request (`execJ`: `memcpy` copies byte by byte, header stores write arbitrary bytes `junk`) —
+the first `min(old size, request)` bytes of the returned block are the old payload bytes,
+on all paths (in place: untouched; moved: copied before the old chunk is released) -/
+theorem realloc_bytes_preserved (cfg : Cfg) (ok : CfgOK cfg) (h : Heap) (p n sz q : Nat) (r : Res)
+    (hr : Reach cfg h) (hl : lookup (p - 8) h.live = some sz)
+    (hs : realloc cfg h (some p) n = some r) (hq : r.ret = some q) (junk : Nat → Nat) (m : Mem) :
+    ∀ i, i < min sz n → execJ junk m r.evs (q + i) = m (p + i) :=
+  realloc_preserves_prefix cfg ok h p n sz q r hr hl hs hq m _ (exec_execJ junk r.evs m)
+
+/-- … and the bytes of every OTHER live block (header and payload) are the same bytes after
+any request, on the concrete memory -/
+theorem heap_bytes_untouched (cfg : Cfg) (ok : CfgOK cfg) (h : Heap) (op : Op) (r : Res) (hr : Reach cfg h)
+    (hs : step cfg h op = some r) (c : Chunk) (hc : c ∈ h.live) (hne : op.target ≠ some (c.1 + 8))
+    (junk : Nat → Nat) (m : Mem) :
+    ∀ x, c.1 ≤ x → x < c.1 + 8 + c.2 → execJ junk m r.evs x = m x :=
+  (heap_contents_untouched cfg ok h op r hr hs c hc hne m _ (exec_execJ junk r.evs m)).2
+
+example : execJ (fun _ => 0) (fun x => x + 1) [.w 0 8, .cp 80 8 3] 81 = 10 := by decide
+
 end Igris.C10
